@@ -2,6 +2,8 @@ import CM.Proofs.ReparseFirstLine
 import CM.Proofs.ReparseIcode
 import CM.Proofs.ReparseDoc
 import CM.Proofs.BlocksGrammar
+import CM.Proofs.BlocksContractReach
+import CM.Proofs.BlocksContractRefDef
 /-
 C16, Layer B, part 11: the real block parser `blocksLP x` meets the session invariant `Sess` of Layer U.
 
@@ -10,7 +12,9 @@ NUL byte, and
 * `HeadKind`: an open first child of the document is a leaf block, a block quote, a list (or a link reference
   definition, which never happens but need not be excluded);
 * `LastOK`: a first child of a `GoodK` kind that is closed at the very end of the source is the only child;
-* `SpansOK`: the inline children of an open indented code block at the head lie inside the source fed so far.
+* `SpansOK`: the inline children of an open indented code block at the head lie inside the source fed so far;
+* `para`: the text of an open paragraph at the head consists of Unparsed nodes that tile `[a, |src|)` (`ParaT` of the
+  C01 contract development).
 -/
 namespace CM.Proofs.Rp
 open CM CM.Model CM.Gen CM.Proofs
@@ -39,6 +43,7 @@ structure BI (src : Bytes) (σ : LP) : Prop where
   hk : HeadKind σ
   last : LastOK src σ
   spans : SpansOK src σ
+  para : ∀ k, σ.root.blocks = [k] → k.label.stop < 0 → ParaT src.length k
 
 theorem GoodK.not_container {k : Nat} (h : GoodK k) : ¬ (k = BK.blockQuote ∨ k = BK.list ∨ k = BK.linkRefDef) := by
   rcases h with rfl | rfl | rfl | rfl | rfl | rfl | rfl <;> decide
@@ -297,5 +302,18 @@ theorem line_spans (x : PExt) {src : Bytes} {σ : LP} (h : BI src σ) (k0 : PB) 
     simp only [List.cons.injEq] at e
     rw [← e.1] at ek
     exact hl (Or.inr (Or.inr (Or.inr (by rw [← ek]; exact hkind))))
+
+theorem padded_of_noNul {b : Bytes} (h : NoNul b) : Padded b := ⟨b, (padNulls_noNul h).symm⟩
+
+/-- `para` after one more line (C01 contract development: `line_step`). -/
+theorem line_para (x : PExt) {src : Bytes} {σ : LP} (h : BI src σ) (k0 : PB) (hb : σ.root.blocks = [k0])
+    (ho : k0.label.stop < 0) (ln : Bytes) (hl : IsLine ln) (hnn : NoNul ln) (hj : ¬ CRLFSplit src ln) :
+    ∀ k, ((blocksLP x).line σ (src ++ ln) src.length).root.blocks = [k] → k.label.stop < 0 → ParaT (src ++ ln).length k := by
+  intro k hk hko
+  have := line_step onCloseParagraph_cuts x σ src ln h.inv.1 h.inv.2.2 (padded_of_noNul h.nn) (padded_of_noNul hnn) hl hj
+    (Or.inr ⟨k0, hb, ho, h.pos, h.para k0 hb ho⟩)
+  exact this.para k (by
+    show ((blocksLP x).line σ (src ++ ln) src.length).root.blocks.getLast? = some k
+    rw [hk]; rfl) hko
 
 end CM.Proofs.Rp
